@@ -11,9 +11,9 @@ from .smt import S, I, SeqS
 from .vx import (V, NONE, RAISE, HList, HDict, St, OutOfReach, fresh, fresh_name,
                  vint, vbool, vstr, vopq, GHOST_SEQ_FIELDS, GHOST_LIST_FIELDS, CTX_NAMES)
 
-SPEC_BUILTINS = {"prefix", "appended", "keys_of", "implies", "is_str", "is_none", "seq_len", "logged"}
+SPEC_BUILTINS = {"expr_value", "parses_as_int", "prefix", "appended", "keys_of", "implies", "is_str", "is_none", "seq_len", "logged"}
 BUILTIN_NAMES = {
-    "prefix", "appended", "keys_of", "implies", "is_str", "is_none", "seq_len", "logged",
+    "expr_value", "parses_as_int", "prefix", "appended", "keys_of", "implies", "is_str", "is_none", "seq_len", "logged",
     "len", "int", "str", "max", "min", "isinstance", "callable", "tuple", "list", "map",
     "range", "reversed", "sorted", "any", "all", "ord", "chr", "set", "frozenset", "dict",
     "float", "abs", "round", "repr", "bool", "enumerate", "zip", "iter", "next", "print",
@@ -831,6 +831,18 @@ def with_exit(x, st, v: V, node):
     return
 
 
+_SPEC_MODS: dict = {}
+
+
+def spec_module(name):
+    if name not in _SPEC_MODS:
+        from pathlib import Path
+        m = loader.Module("spec." + name, Path(__file__).resolve().parent.parent / "specs" / (name + ".py"))
+        m.is_spec = True
+        _SPEC_MODS[name] = m
+    return _SPEC_MODS[name]
+
+
 # ---------------------------------------------------------------- attributes
 
 def getattr_(x, st, v: V, name: str, node):
@@ -843,6 +855,12 @@ def getattr_(x, st, v: V, name: str, node):
             return [(st, f)]
         return [(st, V("func", ("ctxmethod", name))) if _is_ctx_method(name) else
                 (st, _ctx_unknown_field(x, st, name, node))]
+    if v.k == "specmod":
+        sm = spec_module(v.t)
+        fn = sm.top.get(name)
+        if fn is None:
+            raise OutOfReach(f"no spec function {name}")
+        return [(st, V("func", ("def", fn, (), sm)))]
     if v.k == "mod":
         return [(st, V("mod", v.t + "." + name))]
     if v.k in ("str", "ref", "gref", "strlist", "tuple", "match", "smap", "sseq", "set", "cdict",
@@ -1876,6 +1894,10 @@ def spec_builtin(x, st, name, pos, kw, node):
     """functions available in contract clauses only"""
     def g(v):
         return st.ghost[v.t] if v.k == "gref" else v
+    if name == "parses_as_int":
+        return [(st, vbool(z3.InRe(pos[0].t, smt.RE_INT_OK())))]
+    if name == "expr_value":
+        return [(st, vstr(z3.Function("expr_value", S, S)(pos[0].t)))]
     if name == "prefix":
         a, b = g(pos[0]), g(pos[1])
         return [(st, vbool(z3.PrefixOf(a.t, b.t)))]
